@@ -152,7 +152,7 @@ theorem C17gen_PKG_perm_ex_sound (h2 : 2 < q) (rawG : Ex q → List UInt8) (fsC 
 end GV.C17gen
 """
 
-PLK_THMS = ["kzg_same", "ref", "abstract", "binding", "ex", "ex_sound"]
+PLK_THMS = ["kzg_same", "batch6_abstract", "ref", "abstract", "binding", "ex", "ex_sound"]
 
 PLK_TEMPLATE = HEAD + """import GnarkVerif.Proofs.PlkGen
 import GnarkVerif.Gen.Verifier.Plookup_PKG
@@ -162,7 +162,7 @@ import GnarkVerif.Props.C17c
 C17 (plookup, vector proofs), tie T for ecc/CURVE/fr/plookup/vector.go: `VerifyLookupVector(vk, proof)` as REGENERATED from the Go text on every run
 (Gen/Verifier/Plookup_PKG.lean; tools/goslp/slpgperm.go): the four Fiat–Shamir challenges (`deriveRandomness` of table.go executed in place), the two calls
 of kzg.BatchVerifySinglePoint (6 digests at ν, 4 digests at ν·g; re-translated from kzg.go on this run, prefix `kzg_`; the 4-digest def proved identical to
-the one of Gen/Verifier/Kzg_PKG.lean, the 6-digest def has no counterpart there and is NOT expanded to its pairing operands here), the size test
+the one of Gen/Verifier/Kzg_PKG.lean, the 6-digest def has no counterpart there and is expanded to its pairing operands by C17gen_PKG_plk_batch6_abstract), the size test
 (`size` is a Go uint64), the generator test and the quotient identity, in the order of the Go text. PARAMETERS and ASSUMPTIONS: as in Props/C17_gen_perm_PKG.lean.
 -/
 set_option linter.unusedVariables false
@@ -176,6 +176,20 @@ theorem C17gen_PKG_plk_kzg_same {G G2 S L : Type} [AddCommGroup G] [Field S] [BE
     plookup_PKG.kzg_BatchVerifySinglePoint_k4 toInt dg dgErr pcf d0 d1 d2 d3 H v0 v1 v2 v3 z q0 q1 g1 lines
       = kzg_PKG.BatchVerifySinglePoint_k4 toInt dg dgErr pcf d0 d1 d2 d3 H v0 v1 v2 v3 z q0 q1 g1 lines := rfl
 
+/-- the 6-digest batch verification (re-translated from kzg.go; Kzg_PKG.lean stops at 4) over ANY commutative group / ring: `kzg.Verify` of the folded
+digest Σ [γⁱ]dᵢ and folded value Σ vᵢ·γⁱ, γ = deriveGamma(point, digests, values) -/
+theorem C17gen_PKG_plk_batch6_abstract {G G2 S L : Type} [AddCommGroup G] [Field S] [BEq S] [BEq G2] (toInt : S → Int)
+    (pcf : List G → L → Bool) (dg : S → List G → List S → S) (d0 d1 d2 d3 d4 d5 H g1 : G) (v0 v1 v2 v3 v4 v5 z : S) (q0 q1 : G2) (lines : L) :
+    plookup_PKG.kzg_BatchVerifySinglePoint_k6 toInt dg false pcf d0 d1 d2 d3 d4 d5 H v0 v1 v2 v3 v4 v5 z q0 q1 g1 lines
+      = (let γ := dg z [d0, d1, d2, d3, d4, d5] [v0, v1, v2, v3, v4, v5]
+         kzg_PKG.Verify toInt pcf
+           (toInt 1 • d0 + toInt γ • d1 + toInt (γ * γ) • d2 + toInt ((γ * γ) * γ) • d3 + toInt (((γ * γ) * γ) * γ) • d4 + toInt ((((γ * γ) * γ) * γ) * γ) • d5) H
+           (v0 * 1 + v1 * γ + v2 * (γ * γ) + v3 * ((γ * γ) * γ) + v4 * (((γ * γ) * γ) * γ) + v5 * ((((γ * γ) * γ) * γ) * γ)) z q0 q1 g1 lines) := by
+  have hv : ∀ (c : G) (hh : G) (v zz : S), plookup_PKG.kzg_Verify toInt pcf c hh v zz q0 q1 g1 lines = kzg_PKG.Verify toInt pcf c hh v zz q0 q1 g1 lines :=
+    fun _ _ _ _ => rfl
+  simp only [plookup_PKG.kzg_BatchVerifySinglePoint_k6, plookup_PKG.kzg_FoldProof_k6, plookup_PKG.kzg_fold_k6, Bool.false_eq_true, if_false,
+    bne_self_eq_false, hv, add_zero, zero_add, add_assoc]
+
 /-- THE TIE: the generated `VerifyLookupVector` IS the reference program `plkRef` of Proofs/PlkGen.lean (`rfl`) -/
 theorem C17gen_PKG_plk_ref {G G2 S L : Type} [AddCommGroup G] [Field S] [BEq S] [BEq G2] (toInt : S → Int) (rawG : G → List UInt8)
     (fsC : String → List (List UInt8) → List (List UInt8) → List UInt8) (frB : List UInt8 → S) (expS : S → Int → S)
@@ -186,7 +200,7 @@ theorem C17gen_PKG_plk_ref {G G2 S L : Type} [AddCommGroup G] [Field S] [BEq S] 
           (fun ν => plookup_PKG.kzg_BatchVerifySinglePoint_k6 toInt dg dgErr pcf h1 h2 t z f h bH c0 c1 c2 c3 c4 c5 ν q0 q1 g1 lines)
           (fun x => kzg_PKG.BatchVerifySinglePoint_k4 toInt dg dgErr pcf h1 h2 t z sH s0 s1 s2 s3 x q0 q1 g1 lines) := rfl
 
-/-- ABSTRACT FORM over ANY commutative group and field: nil iff the 6-digest batch verification at ν returns nil, the pairing check of the shifted batch
+/-- ABSTRACT FORM over ANY commutative group and field: nil iff the pairing check of the batch at ν holds of `[Σ cᵢδⁱ]G₁ + [−ν]H − Σ[δⁱ]Dᵢ` and `H` (h1, h2, t, z, f, h), the pairing check of the shifted batch
 holds of `[Σ sᵢγ'ⁱ]G₁ + [−νg]H' − Σ[γ'ⁱ]Cᵢ` and `H'` (h1, h2, t, z at ν·g), `size & (size−1) = 0`, `g^(size/2) ≠ 1`, `(g^(size/2))² = 1`, and the field identity holds -/
 theorem C17gen_PKG_plk_abstract {G G2 S L : Type} [AddCommGroup G] [Field S] [BEq S] [BEq G2] (toInt : S → Int) (rawG : G → List UInt8)
     (fsC : String → List (List UInt8) → List (List UInt8) → List UInt8) (frB : List UInt8 → S) (expS : S → Int → S)
@@ -196,14 +210,16 @@ theorem C17gen_PKG_plk_abstract {G G2 S L : Type} [AddCommGroup G] [Field S] [BE
       (let ch := plkChallenges rawG fsC t f h1 h2 z h
        let ν := frB ch.2.2.2
        let γ := dg (ν * g) [h1, h2, t, z] [s0, s1, s2, s3]
-       plookup_PKG.kzg_BatchVerifySinglePoint_k6 toInt dg false pcf h1 h2 t z f h bH c0 c1 c2 c3 c4 c5 ν q0 q1 g1 lines = Res.ok ∧
+       (let δ := dg ν [h1, h2, t, z, f, h] [c0, c1, c2, c3, c4, c5]
+        pcf [toInt (c0 * 1 + c1 * δ + c2 * (δ * δ) + c3 * ((δ * δ) * δ) + c4 * (((δ * δ) * δ) * δ) + c5 * ((((δ * δ) * δ) * δ) * δ)) • g1 + toInt (-ν) • bH
+              - (toInt 1 • h1 + toInt δ • h2 + toInt (δ * δ) • t + toInt ((δ * δ) * δ) • z + toInt (((δ * δ) * δ) * δ) • f + toInt ((((δ * δ) * δ) * δ) * δ) • h), bH] lines = true) ∧
        pcf [toInt (s0 * 1 + s1 * γ + s2 * (γ * γ) + s3 * ((γ * γ) * γ)) • g1 + toInt (-(ν * g)) • sH
               - (toInt 1 • h1 + toInt γ • h2 + toInt (γ * γ) • t + toInt ((γ * γ) * γ) • z), sH] lines = true ∧
        u64and size (u64sub size 1) = 0 ∧
        (expS g (wrap64 (u64quo size 2)) == 1) = false ∧ (expS g (wrap64 (u64quo size 2)) * expS g (wrap64 (u64quo size 2)) == 1) = true ∧
        plkIdent expS size g c0 c1 c2 c3 c4 c5 s0 s1 s2 s3 (frB ch.1) (frB ch.2.1) (frB ch.2.2.1) ν = true) := by
   rw [C17gen_PKG_plk_ref, plkRef_ok_iff]
-  simp only [C11gen_PKG_batchSingle_k4_abstract, C11gen_PKG_verify_abstract]
+  simp only [C17gen_PKG_plk_batch6_abstract, C11gen_PKG_batchSingle_k4_abstract, C11gen_PKG_verify_abstract]
 
 /-- BINDING: `VerifyLookupVector` depends on the transcript only through `fsChallenge "beta" [t, f, h1, h2] []`, `fsChallenge "gamma" [] [β]`,
 `fsChallenge "alpha" [z] [β, γ]`, `fsChallenge "nu" [h] [β, γ, α]` (RawBytes of the commitments, in this order) -/
